@@ -30,6 +30,7 @@ type c19Chunk struct {
 }
 
 type c19Case struct {
+	gaps    map[int]time.Duration // virtual time that passes after chunk i of the merge has been fed
 	streams []uint16
 	msgs    map[uint16][][]byte // per stream: message images in order
 	chunks  map[uint16][][]byte // per stream: the byte sequence cut into chunks
@@ -255,6 +256,10 @@ func runC19(c *ev.Case, ctx *lib.Ctx, cc *c19Case, merge []c19Chunk, stepwise bo
 		return true
 	}
 	for i, ch := range merge {
+		if i > 0 && cc.gaps[i-1] > 0 {
+			synctest.Wait()
+			time.Sleep(cc.gaps[i-1])
+		}
 		assoc.Feed(ch.stream, ch.data)
 		if withNotify && i == len(merge)/2 {
 			notify = conn.(diam.CloseNotifier).CloseNotify()
@@ -526,6 +531,95 @@ func TestC19(t *testing.T) {
 		}
 		if good {
 			c.Event("backlog_cases", 1)
+		}
+	})
+	// long pauses in the middle: data of stream b is set aside while a message of stream a is
+	// incomplete, half a minute passes, more data of stream b arrives, then the rest of a - after
+	// an earlier phase in which b's buffer had grown large and was drained again
+	rec.Suite("backlog-across-a-long-pause", rec.N(24, 2000), func(c *ev.Case) {
+		r := c.R
+		a, b := uint16(r.IntN(8)), uint16(8+r.IntN(8))
+		cc := &c19Case{streams: []uint16{a, b}, msgs: map[uint16][][]byte{}, chunks: map[uint16][][]byte{}, gaps: map[int]time.Duration{}}
+		mk := func(st uint16, i int, body int) []byte {
+			m := seqMsg(uint32(st)<<16|uint32(i), body)
+			cc.msgs[st] = append(cc.msgs[st], m)
+			return m
+		}
+		var merge []c19Chunk
+		add := func(st uint16, data []byte) {
+			merge = append(merge, c19Chunk{st, data})
+			cc.chunks[st] = append(cc.chunks[st], data)
+		}
+		// phase 1: b gets far ahead of a, everything is delivered
+		a1 := mk(a, 1, 100)
+		add(a, a1[:30])
+		for i := 1; i <= 3; i++ {
+			add(b, mk(b, i, []int{5000, 1000, 12}[i-1]))
+		}
+		add(a, a1[30:])
+		// phase 2: a again in the middle of a message, b set aside before and after a long pause
+		a2 := mk(a, 2, 1000)
+		cut := 1 + r.IntN(len(a2)-1)
+		add(a, a2[:cut])
+		add(b, mk(b, 4, 12+4*r.IntN(50)))
+		cc.gaps[len(merge)-1] = time.Duration(21+r.IntN(100)) * time.Second
+		add(b, mk(b, 5, 12+4*r.IntN(50)))
+		if r.IntN(2) == 0 {
+			cc.gaps[len(merge)-1] = 25 * time.Second
+		}
+		add(a, a2[cut:])
+		add(b, mk(b, 6, 12))
+		c.Class("backlog-across-a-long-pause/pauses=%d", len(cc.gaps))
+		good := true
+		leak := runBubbleWD(t, rec, c, 60*time.Second, func() { good = runC19(c, ctx, cc, merge, c.I%2 == 0, false, 0) })
+		if leak != "" && !c.Failed() {
+			c.Fail(ev.Sig{"op": "bubble-leak"}, nil, nil, "goroutines left blocked: %s", leak)
+		}
+		if good {
+			c.Event("backlog_cases", 1)
+		}
+	})
+	// a read of the association fails once with a temporary error between two messages (an
+	// interrupted system call) while the traffic goes on on other streams: the connection either
+	// treats it as the termination it is for the reader (and closes) or delivers everything
+	rec.Suite("interrupted-read-between-messages", rec.N(12, 600), func(c *ev.Case) {
+		c.Class("interrupted-read-between-messages")
+		leak := runBubbleWD(t, rec, c, 60*time.Second, func() {
+			assoc := sctpmem.New()
+			msc := diam.VerifNewSCTPConn(assoc)
+			defer diam.VerifRelease(msc)
+			var mu sync.Mutex
+			var seen []uint32
+			conn, err := diam.NewConn(msc, "peer", diam.HandlerFunc(func(dc diam.Conn, m *diam.Message) {
+				mu.Lock()
+				seen = append(seen, m.Header.HopByHopID)
+				mu.Unlock()
+			}), ctx.Parser)
+			if err != nil {
+				c.Fail(ev.Sig{"op": "setup"}, nil, nil, "NewConn: %v", err)
+				return
+			}
+			s1, s2, s3 := uint16(1+c.R.IntN(5)), uint16(6+c.R.IntN(5)), uint16(11+c.R.IntN(5))
+			assoc.Feed(s1, seqMsg(uint32(s1)<<16|1, 12))
+			synctest.Wait()
+			assoc.FeedOnceErr(&memnet.TempError{Msg: "interrupted system call"})
+			assoc.Feed(s2, seqMsg(uint32(s2)<<16|1, 100))
+			assoc.Feed(s3, seqMsg(uint32(s3)<<16|1, 12))
+			assoc.Feed(s2, seqMsg(uint32(s2)<<16|2, 12))
+			synctest.Wait()
+			mu.Lock()
+			n := len(seen)
+			mu.Unlock()
+			if assoc.CloseCount() == 0 && n != 4 {
+				c.Fail(ev.Sig{"op": "per-stream-order", "how": "interrupted-read"}, nil, nil, "a read of the association failed once with a temporary error between two messages; the association was kept open, but only %d of the 4 messages (streams %d, %d, %d) were delivered", n, s1, s2, s3)
+			}
+			assoc.FeedEOF()
+			conn.Close()
+			synctest.Wait()
+			c.Event("merges", 1)
+		})
+		if leak != "" && !c.Failed() {
+			c.Fail(ev.Sig{"op": "bubble-leak"}, nil, nil, "goroutines left blocked: %s", leak)
 		}
 	})
 	// replies the library builds itself: a state machine's CEA and DWA (and an application answer)
